@@ -274,6 +274,7 @@ fn gen_hook_steps(g: &mut G, k: &Knobs, n: u64) -> Vec<Op> {
             // given) and then goes on - returns an error, say - in the same poll
             6 if k.h_killself > 0 && g.chance(400) => v.push(Op::KillSelf),
             7 if k.h_killself > 0 && g.chance(250) => v.push(Op::StopSelf),
+            7 if k.h_tell_self > 0 && g.chance(300) => v.push(Op::TellSelf { m: Msg::work(g.mid()), ms: g.pick(&[1u64, 2, 5]) }),
             _ => v.push(Op::Yield(1)),
         }
     }
